@@ -119,7 +119,9 @@ func (gen *generator) irMetadata(old ast.Metadata) (metadata.Metadata, error) {
 		case ast.Constant:
 			return gen.irConstant(typ, oldVal)
 		default:
-			panic(fmt.Errorf("support for metadata value %T not yet implemented", oldVal))
+			// Only constants may be used outside of a function-local metadata
+			// operand (e.g. as an element of a metadata tuple).
+			return nil, errors.Errorf("invalid use of function-local name %q in metadata", oldVal.LlvmNode().Text())
 		}
 	case *ast.MDString:
 		s := stringLit(old.Val())
